@@ -78,6 +78,9 @@ Lemma erase_fuel_indep : forall n m l,
   depth_ok n l = true -> depth_ok m l = true -> erase n l = erase m l.
 Proof. intros n m l Hn Hm. rewrite (erase_er n l Hn), (erase_er m l Hm). reflexivity. Qed.
 
+Lemma ordered_acquisition_eq : forall sk, ordered_acquisition sk = well_locked (erase 64 sk).
+Proof. intros. unfold ordered_acquisition. reflexivity. Qed.
+
 Lemma lockprog_app : forall t t', lockprog (t ++ t') = lockprog t ++ lockprog t'.
 Proof. intros. unfold lockprog. apply flat_map_app. Qed.
 
@@ -237,7 +240,8 @@ Section EraseSim.
     intros sk args t Hd Ho Hr.
     destruct (erase_run sk args t Hd Hr) as (t' & Hr' & Hl).
     rewrite <- Hl. apply (gsafe_ordered nlocks).
-    exact (well_locked_sound nlocks lower (erase 64 sk) args t' Ho Hr').
+    rewrite ordered_acquisition_eq in Ho.
+    apply (well_locked_sound nlocks lower (erase 64 sk) args t'); [exact Ho | exact Hr'].
   Qed.
 End EraseSim.
 
